@@ -88,7 +88,7 @@ def try_op(cfg, op, counters, what):
     s = driver.Session(cfg, 1).new()
     pre = op.pop('_pre', [])
     for p in pre:
-        s.step(p)
+        s, _o = driver.advance(s, p)
     out = s.step(op)
     late = None
     if out.ok and what != 'bigdup':
@@ -110,7 +110,7 @@ def check_candidates(rng, counters, classes, n=40):
     vio = []
     for _ in range(n):
         level = rng.choice([1, 2, 3, 4])
-        kind = rng.choice(['iso-file', 'iso-file', 'iso-dir', 'joliet', 'udf', 'rr', 'depth', 'link', 'symlink', 'versions', 'reloc-same'])
+        kind = rng.choice(['iso-file', 'iso-file', 'iso-dir', 'joliet', 'udf', 'rr', 'depth', 'link', 'symlink', 'versions', 'reloc-same', 'reloc-rr-dup'])
         if rng.random() < 0.02:
             kind = 'bigdup'
         xa = rng.random() < 0.35
@@ -168,6 +168,31 @@ def check_candidates(rng, counters, classes, n=40):
             op['_pre'] = pre
             ident = op['iso_path']
             exp = True
+        elif kind == 'reloc-rr-dup':
+            # the Rock Ridge name of a relocated directory is taken in its logical parent (where
+            # its placeholder lives), not only in the relocation directory
+            level = rng.choice([1, 2, 3])
+            cfg = Cfg(level=level, rr=rng.choice(['1.09', '1.12']), xa=xa)
+            pre = []
+            p_ = ''
+            for d in range(7):
+                p_ += '/D%d' % d
+                pre.append({'op': 'add_directory', 'iso_path': p_, 'rr_name': 'd%d' % d})
+            pre.append({'op': 'add_directory', 'iso_path': p_ + '/DIR8', 'rr_name': 'dir8'})
+            if rng.random() < 0.5:
+                pre.append({'op': 'reopen'})
+            how = rng.choice(['add_fp', 'add_symlink', 'add_directory', 'add_hard_link'])
+            if how == 'add_fp':
+                op = {'op': 'add_fp', 'cid': 1, 'length': 3, 'iso_path': p_ + '/OTHER.;1', 'rr_name': 'dir8', '_pre': pre}
+            elif how == 'add_symlink':
+                op = {'op': 'add_symlink', 'symlink_path': p_ + '/OTHER.;1', 'rr_symlink_name': 'dir8', 'rr_path': 't', '_pre': pre}
+            elif how == 'add_directory':
+                op = {'op': 'add_directory', 'iso_path': p_ + '/OTHER', 'rr_name': 'dir8', '_pre': pre}
+            else:
+                pre.append({'op': 'add_fp', 'cid': 2, 'length': 3, 'iso_path': '/SRC.;1', 'rr_name': 'src'})
+                op = {'op': 'add_hard_link', 'old': ('iso', '/SRC.;1'), 'new': ('iso', p_ + '/OTHER.;1'), 'rr_name': 'dir8', '_pre': pre}
+            ident = op.get('iso_path') or op.get('symlink_path') or op['new'][1]
+            exp = 'duplicate-rr'
         elif kind == 'link':
             ident = cand_iso_file(rng, level)
             exp = legal_iso_file(ident, level, xa)
